@@ -96,16 +96,6 @@ def ifactory_pop(it):
     _created(enter(it, 'incentive_factory', 'reply', env, None, instantiate_reply(1, 'some_incentive', it.mk(LI.I + 'InstantiateReplyCallback', lp_asset=nat(it, 'other_lp_denom')))))
 
 
-def opts(it, fields):
-    """every optional field of a configuration message independently present or absent: the full power set up to five fields, otherwise
-    {none, each field alone, all}.  fields: [(name, thunk)] -> {name: Some(thunk()) | None}"""
-    c = it.ctx; k = len(fields)
-    if k <= 5:
-        return {n: (SOME(t()) if c.branch(c.symbool('has_' + n), 'has_' + n) else NONE()) for n, t in fields}
-    m = c.sym('optmode', 8, hi=k + 1)
-    idx = c.choose([m == j for j in range(k + 2)], 'optmode')
-    return {n: (SOME(t()) if idx in (j + 1, k + 1) else NONE()) for j, (n, t) in enumerate(fields)}
-
 M = lambda: Str('mallory')
 TX = PN + 'pair::ExecuteMsg'; FX = PN + 'factory::ExecuteMsg'; VFX = 'white_whale_std::vault_network::vault_factory::ExecuteMsg'
 IFX = LI.IF + 'ExecuteMsg'; HX = PN + 'frontend_helper::ExecuteMsg'; EMX = 'white_whale_std::epoch_manager::epoch_manager::ExecuteMsg'
